@@ -146,16 +146,19 @@ type TraceEv struct {
 }
 
 type sched struct {
-	trace    [512]TraceEv
-	ntrace   int
-	cur      int
-	threads  [MaxThreads]thread
-	n        int
-	running  int
-	now      int64
-	ticks    int
-	maxTicks int
-	step     int64
+	trace     [512]TraceEv
+	ntrace    int
+	cur       int
+	threads   [MaxThreads]thread
+	n         int
+	running   int
+	now       int64
+	ticks     int
+	maxTicks  int
+	maxEvents int
+	// events counter when the driver started waiting for quiescence (-1: not waiting)
+	quiesceStart int
+	step         int64
 
 	prefix  []int
 	points  [MaxPoints]PointRec
@@ -218,8 +221,12 @@ var (
 
 // Config of one execution.
 type Config struct {
-	Prefix       []int
-	MaxTicks     int
+	Prefix   []int
+	MaxTicks int
+	// MaxEvents bounds the number of scheduling events of one execution (default
+	// 400000): a thread that keeps running without ever parking (a busy loop) ends
+	// the execution as "no progress" instead of running forever.
+	MaxEvents    int
 	Sequential   bool // never record alternatives: choice 0 everywhere
 	NoTickChoice bool
 	// AtomicOuterWrite: see sched.atomicOuter (a reduction; off by default)
@@ -244,6 +251,11 @@ func Run(cfg Config, main func()) *Exec {
 	s.cur = ctrlID
 	s.prefix = cfg.Prefix
 	s.maxTicks = cfg.MaxTicks
+	s.maxEvents = cfg.MaxEvents
+	if s.maxEvents == 0 {
+		s.maxEvents = 3000000
+	}
+	s.quiesceStart = -1
 	s.step = int64(cfg.Step)
 	if s.step == 0 {
 		s.step = int64(100 * time.Millisecond)
@@ -487,6 +499,16 @@ func earliestWake(s *sched) (int64, bool) {
 //
 //go:norace
 func decide(s *sched, self int) int {
+	if s.events > s.maxEvents || (s.quiesceStart >= 0 && s.events-s.quiesceStart > 20000) {
+		// livelock: somebody keeps taking steps without ever parking (the driver waits
+		// for quiescence, or the whole execution never finishes)
+		if s.nblocked < MaxThreads {
+			s.blocked[s.nblocked] = "busy loop: a thread keeps running without ever parking"
+			s.nblocked++
+		}
+		stuck(s, true)
+		return -1
+	}
 	for {
 		var opts [MaxThreads + 1]int
 		n := 0
@@ -783,7 +805,9 @@ func Tick(n int) {
 		s.now += s.step
 		note(s, id, KTick)
 		s.threads[id].wait = wQuiesce
+		s.quiesceStart = s.events
 		yield(s, id)
+		s.quiesceStart = -1
 	}
 }
 
@@ -800,7 +824,9 @@ func Quiesce() {
 		return
 	}
 	s.threads[id].wait = wQuiesce
+	s.quiesceStart = s.events
 	yield(s, id)
+	s.quiesceStart = -1
 }
 
 // Join waits for thread tid to finish.
